@@ -26,6 +26,23 @@ TU = "scriptplan/_cython/time_utils_cy.pyx"
 MP = "scriptplan/parser/macro_processor.py"
 
 MUTANTS = [
+    # ------------------------------------------------------------------ reverts of repaired defects F36-F40
+    ("c04_milestone_slot_start", "C04", [(TS, "                    if date is not None and self.slotStartOffset > 0:\n                        from datetime import timedelta\n\n                        date = date + timedelta(seconds=self.slotStartOffset)\n", "")]),
+    ("c08_offset_carried_along", "C08", [(TS, "            self.slotStartOffset = 0.0\n            if self.currentSlotIdx < lowerLimit", "            if self.currentSlotIdx < lowerLimit")]),
+    ("c04_successor_own_edge_only", "C04", [(TS, "                if self._dependsOnMe(pred):\n                    successors.append(task)", "                if pred is self.property:\n                    successors.append(task)")]),
+    ("c04_terminal_own_depends_only", "C04", [(PJ, "            task_scenario = task.data[scIdx] if task.data else None\n            if task_scenario is not None:\n                deps = task_scenario.getAllDependencies()\n            else:\n                deps = task.get(\"depends\", scIdx) or []\n            for dep in deps:\n                if isinstance(dep, dict):\n                    pred = dep.get(\"task\")\n                    onstart = dep.get(\"onstart\", False)",
+                                                "            deps = task.get(\"depends\", scIdx) or []\n            for dep in deps:\n                if isinstance(dep, dict):\n                    pred = dep.get(\"task\")\n                    onstart = dep.get(\"onstart\", False)")]),
+    ("c08_container_end_only_from_dated_roots", "C08", [(PJ, "                propagate_end_to_children(task, task.get(\"end\", scIdx))", "                if task.get(\"end\", scIdx):\n                    propagate_end_to_children(task, task.get(\"end\", scIdx))")]),
+    # ------------------------------------------------------------------ reverts of repaired defects F33, F34 (C04)
+    ("c04_gaplength_one_hour_slots", "C04", [(TS, "gap_slots = int(round(gap_hours * 3600 / granularity))", "gap_slots = int(gap_hours)")]),
+    ("c04_gapduration_working_units", "C04", [(TS, "ALL:self._parse_duration(gapduration, calendar=True)", "self._parse_duration(gapduration)")]),
+    # ------------------------------------------------------------------ revert of repaired defect F32 (C02)
+    ("c02_marker_slot_reoffered", "C02", [(RS, "        if isinstance(self.scoreboard[sb_idx], int):\n            return False\n\n", "")]),
+    # ------------------------------------------------------------------ reverts of repaired defect F31 (C10, C07)
+    ("c10_rollup_parents_first", "C10", [(PJ, "        for task in reversed(list(self.tasks)):\n            if task.leaf():\n                continue  # Skip leaf tasks",
+                                          "        for task in self.tasks:\n            if task.leaf():\n                continue  # Skip leaf tasks")]),
+    ("c10_no_rollup_before_first_scan", "C10", [(PJ, "        self._updateContainerTaskStatus(scIdx)\n\n        while tasks:", "        while tasks:")]),
+    ("c07_no_rollup_before_first_scan", "C07", [(PJ, "        self._updateContainerTaskStatus(scIdx)\n\n        while tasks:", "        while tasks:")]),
     # ------------------------------------------------------------------ reverts of repaired defects F28-F30 (C11)
     ("c11_leave_before_start_unclipped", "C11", [(RS, "ALL:range(max(start_idx, 0), min(end_idx, size))", "range(start_idx, min(end_idx, size))")]),
     ("c11_header_without_end_accepted", "C11", [(TP, "        if project.attributes.get(\"end\") is None:\n            raise ValueError(",
@@ -69,7 +86,7 @@ MUTANTS = [
     ("c03_select_both_lists", "C03", [(TS, "            if not hasattr(self, \"_selectedAlternative\"):\n                self._selectedAlternative = False\n            return primary_resources",
                                        "            if not hasattr(self, \"_selectedAlternative\"):\n                self._selectedAlternative = False\n            return primary_resources + alternative_resources")]),
     ("c03_book_without_limit_check", "C03", [(TS, "        if not self.limitsOk(slot_idx, resource):\n            return 0.0\n\n        # Book the resource", "        # Book the resource")]),
-    ("c03_completion_test_skipped", "C03", [(TS, "            self.bookResources()\n\n            if self.doneEffort >= effort:", "            self.bookResources()\n            if forward is None:\n                return True\n\n            if self.doneEffort >= effort:")]),
+    ("c03_completion_test_skipped", "C03", [(TS, "            self.bookResources()\n\n            # doneEffort is a sum", "            self.bookResources()\n            if forward is None:\n                return True\n\n            # doneEffort is a sum")]),
     # ------------------------------------------------------------------ C04
     ("c04_own_deps_only", "C04", [(TS, "            parent_deps = parent.get(\"depends\", self.scenarioIdx) or []\n            all_deps.extend(parent_deps)\n", "            parent_deps = []\n")]),
     ("c04_gap_subtracted_forward", "C04", [(TS, "                                dep_time = dep_time + timedelta(hours=gap_hours)", "                                dep_time = dep_time - timedelta(hours=gap_hours)")]),
@@ -79,8 +96,8 @@ MUTANTS = [
     ("c04_ready_ignores_unscheduled", "C04", [(TS, "            if t and not t.get(\"scheduled\", self.scenarioIdx):\n                return False\n", "            if t and not t.get(\"scheduled\", self.scenarioIdx):\n                pass\n")]),
     ("c04_end_inherited", "C04", [(PJ, "            [\"end\", \"End\", DateAttribute, False, False, True, None],\n            [\"flags\"", "            [\"end\", \"End\", DateAttribute, True, False, True, None],\n            [\"flags\"")]),
     ("c04_precedes_drops_gap", "C04", [(TP, "                                    \"gapduration\": prec_item.get(\"gapduration\"),\n", "")]),
-    ("c04_successors_own_only", "C04", [(TS, "            if task_scenario is not None:\n                deps = task_scenario.getAllDependencies()\n            else:\n                deps = task.get(\"depends\", self.scenarioIdx) or []\n            for dep in deps:\n                if isinstance(dep, dict):\n                    pred = dep.get(\"task\")\n                elif hasattr(dep, \"task\"):\n                    pred = dep.task\n                else:\n                    pred = dep\n\n                if pred is self.property:\n                    successors.append(task)",
-                                         "            deps = task.get(\"depends\", self.scenarioIdx) or []\n            for dep in deps:\n                if isinstance(dep, dict):\n                    pred = dep.get(\"task\")\n                elif hasattr(dep, \"task\"):\n                    pred = dep.task\n                else:\n                    pred = dep\n\n                if pred is self.property:\n                    successors.append(task)")]),
+    ("c04_successors_own_only", "C04", [(TS, "            if task_scenario is not None:\n                deps = task_scenario.getAllDependencies()\n            else:\n                deps = task.get(\"depends\", self.scenarioIdx) or []\n            for dep in deps:\n                if isinstance(dep, dict):\n                    pred = dep.get(\"task\")\n                elif hasattr(dep, \"task\"):\n                    pred = dep.task\n                else:\n                    pred = dep\n\n                if self._dependsOnMe(pred):\n                    successors.append(task)",
+                                         "            deps = task.get(\"depends\", self.scenarioIdx) or []\n            for dep in deps:\n                if isinstance(dep, dict):\n                    pred = dep.get(\"task\")\n                elif hasattr(dep, \"task\"):\n                    pred = dep.task\n                else:\n                    pred = dep\n\n                if self._dependsOnMe(pred):\n                    successors.append(task)")]),
     # ------------------------------------------------------------------ C05
     ("c05_limit_le", "C05", [(LM, "            if self.upper:\n                return count < self.value\n            else:\n                return count >= self.value", "            if self.upper:\n                return count <= self.value\n            else:\n                return count >= self.value")]),
     ("c05_parent_limits_not_checked", "C05", [(RS, "            if parent_limits and hasattr(parent_limits, \"ok\") and not parent_limits.ok(sb_idx):\n                return False\n", "            if parent_limits and hasattr(parent_limits, \"ok\") and not parent_limits.ok(sb_idx):\n                pass\n")]),
@@ -94,9 +111,9 @@ MUTANTS = [
     ("c06_end_from_slot_start", "C06", [(TS, "precise_end = slot_start + timedelta(seconds=seconds_taken_before) + timedelta(seconds=seconds_rounded)", "precise_end = slot_start + timedelta(seconds=seconds_rounded)")]),
     ("c06_start_without_offset", "C06", [(TS, "                    if start_date is not None and hasattr(self, \"slotStartOffset\") and self.slotStartOffset > 0:\n                        start_date = start_date + timedelta(seconds=self.slotStartOffset)\n", "")]),
     ("c06_alap_end_plus0", "C06", [(TS, "            actual_end = self.project.idxToDate(end_slot + 1)", "            actual_end = self.project.idxToDate(end_slot)")]),
-    ("c06_milestone_end_differs", "C06", [(TS, "                    date = self.project.idxToDate(slot_idx)\n                    self.property[(\"start\", self.scenarioIdx)] = date\n                    self.property[(\"end\", self.scenarioIdx)] = date\n            else:",
-                                           "                    date = self.project.idxToDate(slot_idx)\n                    self.property[(\"start\", self.scenarioIdx)] = date\n                    self.property[(\"end\", self.scenarioIdx)] = self.project.idxToDate(slot_idx + 1)\n            else:")]),
-    ("c06_completion_gt", "C06", [(TS, "            if self.doneEffort >= effort:", "            if self.doneEffort > effort:")]),
+    ("c06_milestone_end_differs", "C06", [(TS, "                        date = date + timedelta(seconds=self.slotStartOffset)\n                    self.property[(\"start\", self.scenarioIdx)] = date\n                    self.property[(\"end\", self.scenarioIdx)] = date\n            else:",
+                                           "                        date = date + timedelta(seconds=self.slotStartOffset)\n                    self.property[(\"start\", self.scenarioIdx)] = date\n                    self.property[(\"end\", self.scenarioIdx)] = self.project.idxToDate(slot_idx + 1)\n            else:")]),
+    ("c06_completion_gt", "C06", [(TS, "            if self.doneEffort >= effort - 1e-9:", "            if self.doneEffort > effort:")]),
     ("c06_start_on_failed_booking", "C06", [(TS, "            if effort_gained > 0:\n                booked_any = True", "            if effort_gained >= 0:\n                booked_any = True")]),
     # ------------------------------------------------------------------ C07 / C08 / C09
     ("c07_priority_ascending", "C07", [(PJ, "            return (-prio, -crit, seq)", "            return (prio, -crit, seq)")]),
@@ -110,7 +127,7 @@ MUTANTS = [
     ("c08_week_index_isocalendar", "C08", [(LM, "            return (slot_monday - start_monday).days // 7", "            return slot_datetime.isocalendar()[1] - self.interval_start.isocalendar()[1]")]),
     ("c09_horizon_shrinks", "C09", [(PJ, "        if min_end_date > self.attributes[\"end\"]:\n            self.attributes[\"end\"] = min_end_date", "        if min_end_date < self.attributes[\"end\"]:\n            self.attributes[\"end\"] = min_end_date")]),
     ("c09_priority_ascending", "C09", [(PJ, "            return (-prio, -crit, seq)", "            return (prio, -crit, seq)")]),
-    ("c09_successor_by_name", "C09", [(TS, "                if pred is self.property:\n                    successors.append(task)", "                if pred is not None:\n                    successors.append(task)")]),
+    ("c09_successor_by_name", "C09", [(TS, "                if self._dependsOnMe(pred):\n                    successors.append(task)", "                if pred is not None:\n                    successors.append(task)")]),
     # ------------------------------------------------------------------ C10
     ("c10_containers_on_worklist", "C10", [(PJ, "tasks: list[Any] = [t for t in all_tasks if t.leaf() and not t.get(\"scheduled\", scIdx)]", "tasks: list[Any] = [t for t in all_tasks if not t.get(\"scheduled\", scIdx)]")]),
     ("c10_rollup_max_start", "C10", [(PJ, "                if child_start and (min_start is None or child_start < min_start):", "                if child_start and (min_start is None or child_start > min_start):")]),
